@@ -161,23 +161,37 @@ func genElement(rc *RC, n *int, depth int, g *c08Gen) string {
 	var sb strings.Builder
 	sb.WriteString("<" + name)
 	if depth == 0 {
+		// the attributes come in a drawn order (from before or after id and type, xmlns first or last, …)
+		var attrs []string
 		switch ch.Int("workload", 4) {
 		case 0:
-			sb.WriteString(` from="` + g.bare + `"`)
+			attrs = append(attrs, ` from="`+g.bare+`"`)
 		case 1:
-			sb.WriteString(` from="other@example.net/r"`)
+			attrs = append(attrs, ` from="other@example.net/r"`)
 		case 2:
-			sb.WriteString(` from="` + g.full + `"`)
+			attrs = append(attrs, ` from="`+g.full+`"`)
 		}
 		if name == "iq" {
-			sb.WriteString(` type="` + []string{"result", "get", "set", "error"}[ch.Int("workload", 4)] + `"`)
+			attrs = append(attrs, ` type="`+[]string{"result", "get", "set", "error"}[ch.Int("workload", 4)]+`"`)
+		} else if (name == "message" || name == "presence") && ch.Chance("workload", 1, 2) {
+			attrs = append(attrs, ` type="`+[]string{"chat", "unavailable", "error", "normal"}[ch.Int("workload", 4)]+`"`)
 		}
-		fmt.Fprintf(&sb, ` id="e%d"`, *n)
+		attrs = append(attrs, fmt.Sprintf(` id="e%d"`, *n))
+		if ch.Chance("workload", 1, 3) {
+			attrs = append(attrs, ` to="`+g.full+`"`)
+		}
 		if name == "x" || name == "data" {
-			sb.WriteString(` xmlns="urn:other"`)
+			attrs = append(attrs, ` xmlns="urn:other"`)
 		} else if g.ws {
-			sb.WriteString(` xmlns="jabber:client"`) // RFC 7395: every top-level element declares its namespace
+			attrs = append(attrs, ` xmlns="jabber:client"`) // RFC 7395: every top-level element declares its namespace
 		}
+		if ch.Chance("workload", 1, 2) {
+			for i := len(attrs) - 1; i > 0; i-- {
+				j := ch.Int("workload", i+1)
+				attrs[i], attrs[j] = attrs[j], attrs[i]
+			}
+		}
+		sb.WriteString(strings.Join(attrs, ""))
 	}
 	if ch.Chance("workload", 1, 4) {
 		sb.WriteString("/>")
